@@ -172,15 +172,24 @@ parsec_arena_release_chunk(parsec_arena_t* arena,
 {
     TRACE_FREE(arena_memory_unused_key, -arena->elem_size*chunk->count, chunk);
 
-    if( (chunk->count == 1) && (arena->released < arena->max_released) ) {
-        PARSEC_DEBUG_VERBOSE(10, parsec_debug_output, "Arena:\tpush a data of size %zu from arena %p, aligned by %zu, base ptr %p, data ptr %p, sizeof prefix %zu(%zd)",
-                arena->elem_size, arena, arena->alignment, chunk, chunk->data, sizeof(parsec_arena_chunk_t),
-                PARSEC_ARENA_MIN_ALIGNMENT(arena->alignment));
+    if( chunk->count == 1 ) {
+        /* Reserve the cache slot first and test the value the reservation returned: testing
+         * 'released < max_released' and incrementing afterwards lets concurrent releases all
+         * pass the test and exceed the cache limit. */
+        int cache_it = 1;
         if(arena->max_released != INT32_MAX) {
-            (void)parsec_atomic_fetch_inc_int32(&arena->released);
+            if( parsec_atomic_fetch_inc_int32(&arena->released) >= arena->max_released ) {
+                (void)parsec_atomic_fetch_dec_int32(&arena->released);
+                cache_it = 0;
+            }
         }
-        parsec_lifo_push(&arena->area_lifo, &chunk->item);
-        return;
+        if( cache_it ) {
+            PARSEC_DEBUG_VERBOSE(10, parsec_debug_output, "Arena:\tpush a data of size %zu from arena %p, aligned by %zu, base ptr %p, data ptr %p, sizeof prefix %zu(%zd)",
+                    arena->elem_size, arena, arena->alignment, chunk, chunk->data, sizeof(parsec_arena_chunk_t),
+                    PARSEC_ARENA_MIN_ALIGNMENT(arena->alignment));
+            parsec_lifo_push(&arena->area_lifo, &chunk->item);
+            return;
+        }
     }
     PARSEC_DEBUG_VERBOSE(10, parsec_debug_output, "Arena:\tdeallocate a tile of size %zu x %zu from arena %p, aligned by %zu, base ptr %p, data ptr %p, sizeof prefix %zu(%zd)",
             arena->elem_size, chunk->count, arena, arena->alignment, chunk, chunk->data, sizeof(parsec_arena_chunk_t),
